@@ -7,20 +7,28 @@
   normalised subscripts (``Sub`` -- ``X[i][j]`` and ``X[i, j]`` are the same term), ``np.pad``
   (``Pad``), ``as_strided`` (``Strided``), ``np.linspace`` (``Lsp``), ``np.array_split`` pieces and
   rows of ``(start, end)`` tables, element-wise random vectors (``EVec``);
-* Python containers: list comprehensions (``ListV``), lists filled by ``append`` (``AccList``);
+* Python containers and callables: list comprehensions (``ListV``), lists filled by ``append``
+  (``AccList``), ``zip`` / ``enumerate`` / ``map``, dict displays passed as ``**kwargs``, local functions and
+  lambdas with their closures (``LocalFn`` / ``LamV``), bound methods (``BoundM``), aliases of module-level
+  functions, re-ordered views (``reversed`` / ``sorted`` / ``[::-1]``);
+* integer helpers: floor / ceil / ``//`` as derived symbols with their defining inequalities, two-argument
+  ``max`` / ``min``; facts that *define* a symbol (loop ranges, floors, random draws, cell lengths) are kept
+  globally (``gfacts``) so that they survive the end of a loop;
 * recorded calls with keyword arguments (``CallV``) for every callee that is not modelled;
-* an event log (subscript loads / stores / appends with the loop stack they happen in) that the
-  row-correspondence rule consumes.
+* an event log (subscript loads / stores / appends / attribute loads and stores / raises / loops, each with the loop
+  stack it happens in) that the row-correspondence rule consumes; ``except`` handlers are interpreted for their
+  events; loop-carried locals are made opaque at loop entry (``carried_names``: definite-assignment analysis on
+  the CFG of the loop body).
 
 Everything is evaluated symbolically once; no repository code runs.
 """
 import ast
 from fractions import Fraction
 
-from ..absint import (Interp, Frame, State, SelfV, Rng, Vec, FHV, Arr, Tup, K, Opq, Alt, LoopCtx,
+from ..absint import (Interp, Frame, State, SelfV, Rng, Vec, FHV, Tup, K, Opq, Alt, LoopCtx,
                       as_lin_val)
 from ..cfg import CFG
-from ..index import dotted, ClassInfo
+from ..index import dotted
 from ..lin import Lin, Facts
 
 ZERO, ONE = Lin.c(0), Lin.c(1)
@@ -115,8 +123,9 @@ class Sub(V):
 class Buf:
     """Fresh array (np.zeros / np.full / np.empty) and the stores made into it.  Identity-based."""
 
-    def __init__(self, shape, fill, node=None):
+    def __init__(self, shape, fill, node=None, loops=()):
         self.shape, self.fill, self.node = list(shape), fill, node
+        self.created_loops = list(loops)
         self.stores = []  # StoreRec
 
     def __repr__(self):
@@ -140,6 +149,7 @@ class AccList:
         self.created_loops = list(loops)
         self.appends = []  # (value, loops, atoms, node)
         self.other = []  # (method name, node) -- mutations that are not plain appends
+        self.persist = None  # why the list may outlive one call (mutable default argument, getattr(self, ..., []))
 
     def __repr__(self):
         return "AccList(%d appends)" % len(self.appends)
@@ -149,8 +159,8 @@ class ListV(V):
     """``[elem for var in it]`` -- element k is ``elem`` with ``var`` bound to ``it[k]``."""
     _f = ("elem", "var", "it")
 
-    def __init__(self, elem, var, it, node=None):
-        self.elem, self.var, self.it, self.node = elem, var, it, node
+    def __init__(self, elem, var, it, node=None, filtered=False):
+        self.elem, self.var, self.it, self.node, self.filtered = elem, var, it, node, filtered
 
 
 class Pad(V):
@@ -256,6 +266,54 @@ class CallV(V):
         return "%s%s(%s)" % (r, self.name, ", ".join(a))
 
 
+class DictV(V):
+    """dict display / dict(...) with constant string keys."""
+    _f = ("items",)
+
+    def __init__(self, items):
+        self.items = dict(items)
+
+
+class LocalFn:
+    """A function defined inside the function being interpreted (closure over the defining environment)."""
+
+    def __init__(self, node, env, module, cls, defcls, owner=None):
+        self.node, self.env, self.module, self.cls, self.defcls, self.owner = node, dict(env), module, cls, defcls, owner
+
+    def __repr__(self):
+        return "<local function %s>" % self.node.name
+
+
+class LamV:
+    """A lambda expression with the environment it closes over."""
+
+    def __init__(self, node, env, module, cls, defcls, meths, owner=None):
+        self.node, self.env, self.module, self.cls, self.defcls, self.owner = node, dict(env), module, cls, defcls, owner
+        self.tag = "lambda:" + ",".join(meths)
+
+    def __repr__(self):
+        return "<%s>" % self.tag
+
+
+class BoundM(V):
+    """``obj.method`` of an interpreted instance (a bound method value)."""
+    _f = ("name",)
+
+    def __init__(self, selfv, name):
+        self.selfv, self.name = selfv, name
+
+    def __repr__(self):
+        return "self.%s" % self.name
+
+
+class ZipV(V):
+    """zip(a, b, ...) / enumerate(a) of equally long sequences."""
+    _f = ("items",)
+
+    def __init__(self, items):
+        self.items = list(items)
+
+
 class KS(K):
     """A constant that is the scenario value of an option (``origin`` = 'self.<option>')."""
 
@@ -272,7 +330,7 @@ class Inst(SelfV):
 
 
 NDS = (Src, Cell, Sub, Buf, Pad, Strided)
-NOT_NONE = (Src, Cell, Sub, Buf, Pad, Strided, AccList, ListV, Lsp, Pieces, Piece, Rows, Row, Cols, EVec, CallV, Loc)
+NOT_NONE = (Src, Cell, Sub, Buf, Pad, Strided, AccList, ListV, Lsp, Pieces, Piece, Rows, Row, Cols, EVec, CallV, Loc, DictV, LocalFn, ZipV, LamV, BoundM)
 
 
 class Event:
@@ -305,7 +363,9 @@ def subst(v, m):
         return CallV(v.name, subst(v.recv, m), [subst(x, m) for x in v.args], {k: subst(x, m) for k, x in v.kwargs.items()},
                      v.node, v.loops)
     if isinstance(v, ListV):
-        return ListV(subst(v.elem, m), v.var, subst(v.it, m), v.node)
+        return ListV(subst(v.elem, m), v.var, subst(v.it, m), v.node, v.filtered)
+    if isinstance(v, ZipV):
+        return ZipV([subst(x, m) for x in v.items])
     if isinstance(v, Opq):
         return Opq(v.tag, [subst(x, m) for x in v.args])
     if isinstance(v, Piece):
@@ -346,8 +406,10 @@ def children(v):
         return [s.value for s in v.stores]
     if isinstance(v, Alt):
         return [x for x, _ in v.alts]
-    if isinstance(v, Cols):
+    if isinstance(v, (Cols, ZipV)):
         return list(v.items)
+    if isinstance(v, DictV):
+        return list(v.items.values())
     return []
 
 
@@ -447,6 +509,8 @@ def compose(base, spec, how):
 def _mk(base, spec, how):
     if not spec:
         return base
+    if isinstance(base, ListV) and len(spec) == 1 and spec[0][0] == "i" and base.var is not None:
+        return subst(base.elem, {_one_sym(base.var): spec[0][1]})
     if isinstance(base, Src) and base.kind in ("nested", "raw", "either") and len(spec) == 2 and all(s[0] == "i" for s in spec) \
             and how == "iloc":
         return Cell(base, spec[0][1], spec[1][1])
@@ -485,6 +549,7 @@ class XInterp(Interp):
         self.types = dict(types or {})  # ("self", attr) -> set of type names
         self.calls = []  # CallV in evaluation order
         self._recv = {}  # id(receiver expression) -> value, while the enclosing call is being evaluated
+        self.derived = {}  # derived symbol -> symbols it is computed from
         self.gfacts = Facts()  # facts that define symbols (ranges of loop variables, floors, random draws, cell lengths)
         self.maxlen_syms = {}
 
@@ -507,11 +572,25 @@ class XInterp(Interp):
         num = lin.scale(den)
         return self.floor_div(num, den, st)
 
+    def depends(self, lin, symname):
+        """Does the affine form mention ``symname`` directly or through a derived symbol (floor, max, min)?"""
+        todo, seen = list(lin.symbols()), set()
+        while todo:
+            x = todo.pop()
+            if x == symname:
+                return True
+            if x in seen:
+                continue
+            seen.add(x)
+            todo.extend(self.derived.get(x, ()))
+        return False
+
     def floor_div(self, num, den, st):
         if num.is_const():
             return Lin.c(num.const // den)
         s = Lin.sym("floor((%r)/(%r))" % (num, Lin.c(den)))
         self.floordefs[list(s.symbols())[0]] = (num, den)
+        self.derived[list(s.symbols())[0]] = set(num.symbols())
         self.gfact(st, s.scale(den), "<=", num, "floor: %d*floor(x/%d) <= x" % (den, den))
         self.gfact(st, num, "<=", s.scale(den) + (den - 1), "floor: x <= %d*floor(x/%d) + %d" % (den, den, den - 1))
         return s
@@ -534,6 +613,118 @@ class XInterp(Interp):
         self.events.append(Event(kind, node, base, spec, value, st.loops, frame.func, how))
 
     # ------------------------------------------------------------- statements
+    def stmt(self, node, st, frame):
+        if isinstance(node, ast.Raise):
+            self.record("raise", node, None, None, None, st, frame)
+        if isinstance(node, ast.FunctionDef):
+            st.env[node.name] = LocalFn(node, st.env, frame.module, frame.cls, frame.defcls, frame.func)
+            return [(st, ("fall",))]
+        if isinstance(node, ast.Try) and node.handlers:
+            # the handlers are interpreted too (from the state before the try) so that what they do is seen by the
+            # rules; their traces are not continued (the normal path carries the analysis)
+            before = st.copy()
+            out = Interp.stmt(self, node, st, frame)
+            for h in node.handlers:
+                hs = before.copy()
+                if h.name:
+                    hs.env[h.name] = Opq("exception")
+                try:
+                    self.block(h.body, hs, frame)
+                except Exception:
+                    pass
+            return out
+        return Interp.stmt(self, node, st, frame)
+
+    def run_function(self, frame, args, st=None):
+        closure = getattr(frame, "closure", None)
+        if closure is None:
+            return Interp.run_function(self, frame, args, st)
+        # a local function: free variables resolve in the defining environment
+        a = dict(args)
+        fn = frame.func
+        names = {p.arg for p in fn.args.posonlyargs + fn.args.args + fn.args.kwonlyargs}
+        assigned = {n.id for n in ast.walk(fn) if isinstance(n, ast.Name) and isinstance(n.ctx, ast.Store)}
+        st = st or State()
+        st2 = State({}, st.facts, st.loops, st.atoms, st.heap)
+        st2.yields = []
+        params = [p.arg for p in fn.args.posonlyargs + fn.args.args]
+        defaults = [None] * (len(params) - len(fn.args.defaults)) + list(fn.args.defaults)
+        for k, v in closure.items():
+            if k not in names and k not in assigned:
+                st2.env[k] = v
+        for p_, d in zip(params, defaults):
+            if p_ in a:
+                st2.env[p_] = a[p_]
+            elif d is not None:
+                st2.env[p_] = self.ev(d, st2, frame)
+            else:
+                st2.env[p_] = Opq("param:" + p_)
+        return self.block(fn.body, st2, frame), st2
+
+    def call_value(self, fval, args, kwargs, e, st, frame):
+        """Call of a function *value* (local function, alias of a module-level function)."""
+        if isinstance(fval, LocalFn) and frame.depth < self.inline_depth:
+            sub_frame = Frame(fval.module, fval.node, fval.cls, fval.defcls, frame.depth + 1)
+            sub_frame.closure = dict(fval.env)
+            if frame.func is fval.owner:
+                sub_frame.closure.update(st.env)
+            fn = fval.node
+            params = [p.arg for p in fn.args.posonlyargs + fn.args.args]
+            bound = dict(zip(params, args))
+            bound.update(kwargs)
+            traces, fst = self.run_function(sub_frame, bound, st)
+            normal = [(s, o[1] if o[0] == "return" else K(None)) for s, o in traces if o[0] in ("return", "fall")]
+            vals = []
+            for s, v in normal:
+                if not any(_veq(v, w) for w in vals):
+                    vals.append(v)
+            if len(vals) == 1:
+                return vals[0]
+            return Opq("local-call", vals)
+        if isinstance(fval, LamV) and frame.depth < self.inline_depth:
+            a = fval.node.args
+            params = [p.arg for p in a.posonlyargs + a.args]
+            if len(args) > len(params) or a.vararg or a.kwarg:
+                return NotImplemented
+            s2 = st.copy()
+            s2.env = dict(fval.env)
+            if frame.func is fval.owner:
+                s2.env.update(st.env)
+            defaults = [None] * (len(params) - len(a.defaults)) + list(a.defaults)
+            for p_, d in zip(params, defaults):
+                if d is not None:
+                    s2.env[p_] = self.ev(d, s2, frame)
+            for p_, v in zip(params, args):
+                s2.env[p_] = v
+            for k_, v in kwargs.items():
+                s2.env[k_] = v
+            sub_frame = Frame(fval.module, frame.func, fval.cls, fval.defcls, frame.depth + 1)
+            return self.ev(fval.node.body, s2, sub_frame)
+        if isinstance(fval, BoundM) and fval.selfv.cls is not None:
+            hit = self.repo.lookup_method(fval.selfv.cls, fval.name)
+            if hit is not None and frame.depth < self.inline_depth and fval.name not in self.no_inline:
+                k, fn = hit
+                return self.inline_fn(k.module, fn, fval.selfv, k, k.is_static(fval.name), args, kwargs, st, frame)
+            cv = CallV(fval.name, fval.selfv, args, kwargs, e, st.loops)
+            self.calls.append(cv)
+            return cv
+        if isinstance(fval, Opq) and (fval.tag.startswith("name:") or fval.tag.startswith("global:")) and not fval.args:
+            nm = fval.tag.split(":", 1)[1]
+            fname = nm if fval.tag.startswith("name:") else "=" + nm
+            dummy = ast.Call(func=ast.Name(id=nm.split(".")[-1], ctx=ast.Load()), args=[], keywords=[])
+            for step in (lambda: self._hooks(self, frame, dummy, fname, list(args), dict(kwargs), st),
+                         lambda: self.builtin_call(dummy, fname, list(args), dict(kwargs), st, frame),
+                         lambda: self.inline_call(dummy, fname, list(args), dict(kwargs), st, frame)):
+                r = step()
+                if r is not NotImplemented:
+                    return r
+            return NotImplemented
+        if isinstance(fval, Opq) and fval.tag.startswith("attr:") and len(fval.args) == 1:
+            cv = CallV(fval.tag[5:], fval.args[0], args, kwargs, e, st.loops)
+            self.calls.append(cv)
+            return cv
+        return NotImplemented
+
     def _loop_elem(self, it, target, st, frame, node, kind):
         """(var, elem, loopctx or None); adds range facts to ``st``."""
         inner_seq = reordered(it)
@@ -556,6 +747,16 @@ class XInterp(Interp):
             if isinstance(inner, Rng):
                 self.gfact(st, inner.lo, "<=", var, "loop range lower bound")
                 self.gfact(st, var, "<=", inner.hi - 1, "loop range upper bound")
+        elif isinstance(it, AccList) and isinstance(as_listv(it), ListV):
+            return self._loop_acc(it, target, st, frame, node, kind)
+        elif isinstance(it, ZipV):
+            var = Lin.sym("%s#%d" % (tname.replace(".", "_"), self.uid))
+            elems = [self.elem_at(x, var, st) for x in it.items]
+            elem = Tup(elems)
+            ext = [seq_len(x, self) for x in it.items]
+            self.gfact(st, ZERO, "<=", var, "zip position")
+            if ext and ext[0] is not None:
+                self.gfact(st, var, "<=", ext[0] - 1, "zip position")
         elif isinstance(it, Src) and it.kind == "frame":
             var = Lin.sym("%s#%d" % (tname, self.uid))
             elem = Opq("column-label", [var])
@@ -578,6 +779,8 @@ class XInterp(Interp):
         elif isinstance(it, EVec):
             var = None
             elem = it.elem
+        elif isinstance(it, Tup) and len(it.items) == 1:
+            var, elem = None, it.items[0]
         elif isinstance(it, (Vec, FHV)):
             vec = it if isinstance(it, Vec) else it.vec
             var = Lin.sym("%s[i#%d]" % (vec.base, self.uid))
@@ -585,6 +788,24 @@ class XInterp(Interp):
         else:
             elem = Opq("elem", [it])
         return var, elem, XLoop(var, it, node, st.atoms, kind)
+
+    def _loop_acc(self, acc, target, st, frame, node, kind):
+        lv = as_listv(acc)
+        var, elem, lc = self._loop_elem(lv, target, st, frame, node, kind)
+        return var, elem, XLoop(var, acc, node, st.atoms, kind)
+
+    def elem_at(self, seq, idx, st):
+        """Element ``idx`` of a sequence value."""
+        if isinstance(seq, Rng):
+            return seq.lo + idx if seq.step == ONE else Opq("elem", [seq, idx])
+        if isinstance(seq, AccList):
+            el = self.acc_elem(seq, idx)
+            return el if el is not None else Sub(seq, [("i", idx)])
+        if isinstance(seq, ListV) and seq.var is not None:
+            return subst(seq.elem, {_one_sym(seq.var): idx})
+        if isinstance(seq, NDS):
+            return self.make_sub(seq, [("i", idx)], seq.how if isinstance(seq, Sub) else "item", st)
+        return Opq("elem", [seq, idx])
 
     def _generic_elem(self, x):
         if isinstance(x, EVec):
@@ -634,29 +855,40 @@ class XInterp(Interp):
                     st.env[n.id] = Opq("loop-carried:" + n.id)
 
     def ev_ListComp(self, e, st, frame):
-        if len(e.generators) != 1 or e.generators[0].ifs or e.generators[0].is_async:
+        if len(e.generators) != 1 or e.generators[0].is_async:
             return Opq("comprehension", [])
         g = e.generators[0]
         it = self.ev(g.iter, st, frame)
         s2 = st.copy()
-        var, elem, lc = self._loop_elem(it, g.target, s2, frame, e, "comp")
+        var, elem, lc = self._loop_elem(it, g.target, s2, frame, e, "comp-filtered" if g.ifs else "comp")
         s2.loops = list(st.loops) + [lc]
         self.assign(g.target, elem, s2, frame)
         self.record("loop", e, it, None, None, s2, frame)
         val = self.ev(e.elt, s2, frame)
-        return ListV(val, var, it, e)
+        self.record("comp-elem", e, None, None, val, s2, frame)
+        return ListV(val, var, it, e, bool(g.ifs))
 
     ev_GeneratorExp = ev_ListComp
 
     def ev_List(self, e, st, frame):
         if not e.elts:
+            a = frame.func.args
+            if any(d is e for d in list(a.defaults) + [d for d in a.kw_defaults if d is not None]):
+                acc = AccList(e, (), frame.func)
+                acc.persist = "it is a mutable default argument of %s()" % frame.func.name
+                return acc
             return AccList(e, st.loops, frame.func)
         return Interp.ev_Tuple(self, e, st, frame)
+
+    def ev_Dict(self, e, st, frame):
+        if all(isinstance(k, ast.Constant) and isinstance(k.value, str) for k in e.keys):
+            return DictV({k.value: self.ev(v, st, frame) for k, v in zip(e.keys, e.values)})
+        return Opq("dict", [])
 
     def ev_Lambda(self, e, st, frame):
         meths = sorted({c.func.attr for c in ast.walk(e.body) if isinstance(c, ast.Call) and isinstance(c.func, ast.Attribute)
                         and isinstance(c.func.value, ast.Name) and c.func.value.id == "self"})
-        return Opq("lambda:" + ",".join(meths), [])
+        return LamV(e, st.env, frame.module, frame.cls, frame.defcls, meths, frame.func)
 
     def ev_JoinedStr(self, e, st, frame):
         return Opq("fstring", [])
@@ -699,6 +931,16 @@ class XInterp(Interp):
         return Interp._is(self, a, b)
 
     def getattr(self, base, attr, e, st, frame):
+        if isinstance(base, SelfV):
+            if (id(base), attr) not in st.heap and attr not in base.attrs and base.cls is not None:
+                hit = self.repo.lookup_method(base.cls, attr)
+                if hit is not None and attr not in getattr(hit[0], "properties", {}):
+                    return BoundM(base, attr)
+            self.record("attr-load", e, base, attr, None, st, frame)
+        if isinstance(base, NDS) and attr == "ndim":
+            sh = shape_of(base)
+            if sh is not None:
+                return Lin.c(len(sh))
         if isinstance(base, NDS):
             if attr == "shape":
                 sh = shape_of(base)
@@ -721,6 +963,13 @@ class XInterp(Interp):
             la, lb = as_lin_val(a), as_lin_val(b)
             if la is not None and lb is not None and lb.is_const() and lb.const > 0 and lb.const == int(lb.const):
                 return self.floor_sym(la.scale(Fraction(1) / lb.const), st)
+        if isinstance(op, ast.Mult):
+            for x, y in ((a, b), (b, a)):
+                ly = as_lin_val(y)
+                if isinstance(x, Tup) and ly is not None and ly.is_const() and 0 <= ly.const <= 8 and ly.const == int(ly.const):
+                    return Tup(list(x.items) * int(ly.const))
+                if isinstance(x, Rng) and ly is not None and ly.is_const() and ly.const in (1, -1):
+                    return x if ly.const == 1 else self.neg(x)
         if isinstance(a, EVec) or isinstance(b, EVec):
             ea = a.elem if isinstance(a, EVec) else a
             eb = b.elem if isinstance(b, EVec) else b
@@ -737,7 +986,10 @@ class XInterp(Interp):
                 hi = self.ev(it.upper, st, frame) if it.upper is not None else None
                 llo = as_lin_val(lo) if lo is not None else None
                 lhi = as_lin_val(hi) if hi is not None else None
-                if it.step is not None or (lo is not None and llo is None) or (hi is not None and lhi is None):
+                stepv = as_lin_val(self.ev(it.step, st, frame)) if it.step is not None else None
+                if it.step is not None and stepv == Lin.c(-1) and lo is None and hi is None:
+                    out.append(("x", Opq("reversed-axis", [])))
+                elif it.step is not None or (lo is not None and llo is None) or (hi is not None and lhi is None):
                     out.append(("x", Opq("slice", [x for x in (lo, hi) if x is not None])))
                 elif llo is None and lhi is None:
                     out.append(("a",))
@@ -790,6 +1042,10 @@ class XInterp(Interp):
         spec = list(spec)
         if isinstance(base, Piece) and len(spec) == 1 and spec[0][0] == "i" and spec[0][1].is_const():
             c = spec[0][1].const
+            if c not in (0, -1) and c == int(c):
+                # members are consecutive positions: piece[k] = first + k, piece[-k] = last - k + 1
+                self.make_sub(base, [("i", ZERO)], how, st)
+                return base.first() + int(c) if c > 0 else base.last() + int(c) + 1
             if c in (0, -1):
                 ln = shape_of(base.pieces.base) if isinstance(base.pieces.base, (Rng,) + NDS) else None
                 self.gfact(st, ZERO, "<=", base.first(), "piece members are positions of the split array")
@@ -876,6 +1132,23 @@ class XInterp(Interp):
         if any(isinstance(a, ast.Starred) for a in e.args):
             args.append(Opq("starargs"))
         kwargs = {k.arg: self.ev(k.value, st, frame) for k in e.keywords if k.arg}
+        for k in e.keywords:
+            if k.arg is None:
+                dv = self.ev(k.value, st, frame)
+                if isinstance(dv, DictV):
+                    for kk, vv in dv.items.items():
+                        kwargs.setdefault(kk, vv)
+                else:
+                    kwargs["**"] = dv
+        # call of a local name bound to a function value
+        if isinstance(e.func, ast.Name) and e.func.id in st.env:
+            fval = st.env[e.func.id]
+            if isinstance(fval, Opq) and fval.tag.startswith("global:"):
+                fname = "=" + fval.tag[len("global:"):]
+            else:
+                r = self.call_value(fval, args, kwargs, e, st, frame)
+                if r is not NotImplemented:
+                    return r
         r = self._hooks(self, frame, e, fname, args, kwargs, st)
         if r is not NotImplemented:
             return r
@@ -888,18 +1161,20 @@ class XInterp(Interp):
         recv = None
         name = fname
         ext = self.ext_name(fname, frame)
-        if isinstance(e.func, ast.Name) and fname in st.env:
+        if fname and fname.startswith("="):
+            name = fname[1:]
+        elif isinstance(e.func, ast.Name) and fname in st.env:
             name, recv = "__call__", st.env[fname]
         elif ext is not None and not (isinstance(e.func, ast.Attribute) and dotted(e.func.value) in st.env):
             name = ext
         elif isinstance(e.func, ast.Attribute):
             recv = self.ev(e.func.value, st, frame)
             name = e.func.attr
-            sym = self.repo.resolve_dotted(frame.module, fname) if fname else None
+            sym = self.resolve_sym(fname, frame)
             if sym is not None and sym.kind in ("func", "class") and not isinstance(recv, (SelfV,)):
                 name, recv = sym.dotted, None
         else:
-            sym = self.repo.resolve_dotted(frame.module, fname) if fname else None
+            sym = self.resolve_sym(fname, frame)
             if fname in st.env:
                 name, recv = "__call__", st.env[fname]
             elif sym is not None and sym.dotted:
@@ -908,7 +1183,26 @@ class XInterp(Interp):
         self.calls.append(cv)
         return cv
 
+    def resolve_sym(self, fname, frame):
+        """Symbol of a callee name; ``=dotted`` names are aliases already resolved to a fully-qualified name."""
+        if not fname:
+            return None
+        if fname.startswith("="):
+            return self.repo._resolve_abs(fname[1:])
+        return self.repo.resolve_dotted(frame.module, fname)
+
+    def ext_name(self, fname, frame):
+        if fname and fname.startswith("="):
+            sym = self.resolve_sym(fname, frame)
+            return sym.dotted if sym is not None and sym.kind == "ext" else None
+        return Interp.ext_name(self, fname, frame)
+
     def resolve_callee(self, e, fname, st, frame):
+        if fname and fname.startswith("="):
+            sym = self.resolve_sym(fname, frame)
+            if sym is not None and sym.kind == "func":
+                return sym.module, sym.target, None, None, True
+            return None
         f = e.func
         if isinstance(f, ast.Attribute) and not (isinstance(f.value, ast.Call) and dotted(f.value.func) == "super"):
             recv = self.ev(f.value, st, frame)
@@ -959,6 +1253,29 @@ class XInterp(Interp):
             return Opq("isinstance", args)
         if ext in ("math.floor", "numpy.floor", "builtins.int", "numpy.int") and len(args) == 1 and lins[0] is not None:
             return self.floor_sym(lins[0], st)
+        if ext in ("builtins.max", "builtins.min") and len(args) == 1 and not kwargs and isinstance(args[0], Tup) \
+                and len(args[0].items) == 2 and all(as_lin_val(x) is not None for x in args[0].items):
+            args = list(args[0].items)
+            lins = [as_lin_val(a) for a in args]
+        if ext in ("numpy.maximum", "numpy.minimum") and len(args) == 2 and not kwargs and any(isinstance(a, EVec) for a in args):
+            els = [a.elem if isinstance(a, EVec) else as_lin_val(a) for a in args]
+            if all(isinstance(x, Lin) for x in els):
+                r = self._hooks(self, frame, call, fname, els, {}, st)
+                if isinstance(r, Lin):
+                    return EVec(r)
+        if ext in ("builtins.max", "builtins.min", "numpy.maximum", "numpy.minimum") and len(args) == 2 and not kwargs \
+                and all(l is not None for l in lins):
+            big = ext.endswith(("max", "maximum"))
+            a, b = lins
+            for x, y in ((a, b), (b, a)):
+                if st.facts.entails_cmp(x, ">=", y) is not None:
+                    return x if big else y
+            nm = "%s(%r, %r)" % ("max" if big else "min", *sorted([a, b], key=repr))
+            r = Lin.sym(nm)
+            self.derived[nm] = set(a.symbols()) | set(b.symbols())
+            for x in (a, b):
+                self.gfact(st, x if big else r, "<=", r if big else x, "definition of %s" % nm)
+            return r
         if ext in ("math.ceil", "numpy.ceil") and len(args) == 1 and lins[0] is not None:
             return -self.floor_sym(-lins[0], st)
         if ext in ("numpy.full", "numpy.zeros", "numpy.empty", "numpy.ones"):
@@ -968,7 +1285,7 @@ class XInterp(Interp):
             dl = [as_lin_val(d) for d in dims]
             if all(d is not None for d in dl):
                 fill = b.get("fill_value") if ext == "numpy.full" else (K("uninit") if ext == "numpy.empty" else Lin.c(0 if ext == "numpy.zeros" else 1))
-                return Buf(dl, fill, call)
+                return Buf(dl, fill, call, st.loops)
             return Opq("buf", args)
         if ext == "numpy.pad":
             b = self.bind_ext(ext, args, kwargs)
@@ -1001,6 +1318,43 @@ class XInterp(Interp):
                 return Pieces(b.get("ary"), b.get("indices_or_sections"))
         if ext == "numpy.column_stack" and len(args) == 1 and isinstance(args[0], Tup):
             return Cols(args[0].items)
+        if ext == "builtins.hasattr" and len(args) == 2 and isinstance(args[1], K) and isinstance(args[1].v, str):
+            if isinstance(args[0], SelfV):
+                self.record("attr-load", call, args[0], args[1].v, None, st, frame)
+                if (id(args[0]), args[1].v) in st.heap or args[1].v in args[0].attrs:
+                    return K(True)
+            if isinstance(args[0], Src) and args[1].v in ("shape",) and args[0].kind != "raw":
+                return K(True)
+        if ext == "builtins.getattr" and len(args) >= 2 and isinstance(args[0], SelfV) and isinstance(args[1], K) \
+                and isinstance(args[1].v, str):
+            self.record("attr-load", call, args[0], args[1].v, None, st, frame)
+            if (id(args[0]), args[1].v) in st.heap:
+                return st.heap[(id(args[0]), args[1].v)]
+            if args[1].v in args[0].attrs:
+                return args[0].attrs[args[1].v]
+            if len(args) == 3 and isinstance(args[2], AccList):
+                args[2].persist = "it is taken from self.%s when a previous call left one there" % args[1].v
+                return args[2]
+            return Opq("self." + args[1].v)
+        if ext == "builtins.dict" and not args and "**" not in kwargs:
+            return DictV(kwargs)
+        if ext == "builtins.zip" and len(args) >= 2 and not kwargs:
+            return ZipV(args)
+        if ext == "builtins.enumerate" and len(args) == 1 and not kwargs:
+            n_ = seq_len(args[0], self)
+            if n_ is not None:
+                return ZipV([Rng(ZERO, n_), args[0]])
+        if ext == "builtins.map" and len(args) == 2 and not kwargs:
+            seq = args[1]
+            s2 = st.copy()
+            var, elem, lc = self._loop_elem(seq, ast.Name(id="m", ctx=ast.Store()), s2, frame, call, "comp")
+            s2.loops = list(st.loops) + [lc]
+            self.record("loop", call, seq, None, None, s2, frame)
+            fval = args[0]
+            r = self.call_value(fval, [elem], {}, call, s2, frame)
+            if r is NotImplemented:
+                r = CallV("__call__", fval, [elem], {}, call, s2.loops)
+            return ListV(r, var, seq, call)
         if ext == "builtins.list" and len(args) == 1 and not kwargs:
             if isinstance(args[0], (ListV, Rows, Cols, Pieces, Lsp)):
                 return args[0]
@@ -1034,6 +1388,9 @@ class XInterp(Interp):
                         recv.appends.append((args[0], list(st.loops), dict(st.atoms), call))
                     self.record("append", call, recv, None, args[0], st, frame)
                     return K(None)
+                if meth == "extend" and len(args) == 1 and isinstance(args[0], ListV) and isinstance(args[0].it, EVec) \
+                        and isinstance(args[0].elem, Lin) and not args[0].filtered:
+                    args = [EVec(args[0].elem)]
                 if meth == "extend" and len(args) == 1 and isinstance(args[0], EVec):
                     recv.appends.append((args[0], list(st.loops), dict(st.atoms), call))
                     recv.other.append(("extend", call))
@@ -1099,6 +1456,8 @@ def reordered(v):
         return v.args[0]
     if isinstance(v, Opq) and v.tag == "slice-step" and v.args:
         return v.args[0]
+    if isinstance(v, Sub) and any(x == ("x", Opq("reversed-axis", [])) for x in v.spec):
+        return compose(v.base, [("a",) if x == ("x", Opq("reversed-axis", [])) else x for x in v.spec], v.how)
     return None
 
 
@@ -1117,6 +1476,23 @@ def _veq(a, b):
         return a is b or a == b
     except Exception:
         return False
+
+
+def seq_len(v, it=None):
+    """Length of a sequence value (Lin) or None."""
+    if isinstance(v, Rng):
+        return v.length()
+    if isinstance(v, NDS):
+        sh = shape_of(v)
+        return sh[0] if sh else None
+    if isinstance(v, ListV):
+        return None if v.filtered else seq_len(v.it, it)
+    if isinstance(v, AccList) and it is not None:
+        return it.acc_len(v)
+    if isinstance(v, ZipV):
+        ls = [seq_len(x, it) for x in v.items]
+        return ls[0] if ls and all(x is not None and x == ls[0] for x in ls) else None
+    return None
 
 
 def _one_sym(lin):
